@@ -161,9 +161,16 @@ func listChain(v ssa.Value) []string {
 			continue
 		case *ssa.Call:
 			if isCallTo(x, "builtin:append") {
+				// one step per appended element: append(l, a, b) is append(l, a) followed by append(l, b)
 				t, _ := seqTail(x.Call.Args[1], 0, map[ssa.Value]bool{})
-				name := "append(" + seqString(t) + ")"
-				steps = append([]string{name}, steps...)
+				var names []string
+				for _, e := range t {
+					names = append(names, "append("+seqString([]SeqElem{e})+")")
+				}
+				if len(t) == 0 {
+					names = []string{"append([])"}
+				}
+				steps = append(names, steps...)
 				v = x.Call.Args[0]
 				continue
 			}
